@@ -30,12 +30,12 @@ func (p *Prop) Meta() simkit.Meta {
 		Assumptions: []string{
 			"values are finite with |x| in [1e-6,1e12] or 0, so that squares neither overflow nor underflow (the statement speaks of large offsets, not of overflow)",
 			"self-merge s.Combine(s) and struct copies of a StreamStats are not generated (the statement speaks of 'any two StreamStats')",
-			"tolerances are derived from the data: |Total-ref| <= 8(n+4)eps*sum|x|, mean likewise /n, variance abs error <= 8(n+4)^1.5*eps*sigma*sqrt(sigma^2+mean-square); observed/allowed is reported as max_error_over_bound",
+			"tolerances are derived from the data: |Total-ref| <= 8(n+4)eps*sum|x|, mean 8(n+4)eps*max|x|, variance abs error <= 8(n+4)^1.5*eps*sigma*sqrt(sigma^2+mean-square); observed/allowed is reported as max_error_over_bound",
 			"an empty accumulator is only required to report Count==0 and Total==0 and to behave as empty in every later event",
 		},
 		FaultKinds:    []string{"empty_party"},
 		NotApplicable: notApplicableFaults,
-		RunsQuick:     120000, RunsThorough: 4000000,
+		RunsQuick:     400000, RunsThorough: 6000000,
 	}
 }
 
